@@ -1,10 +1,12 @@
-SPECIFICATION SeededSpec
+SPECIFICATION GenSpec
 CONSTANTS
-  MaxCommits = 8
-  MaxOps = 4
+  MaxCommits = 7
+  MaxOps = 3
   MaxActs = 1
   EmptyPolicies = {"keep", "all"}
   AllowFinding = FALSE
   Bug = "none"
-INVARIANTS InvC10 InvC11 InvC13 InvC46 InvNoPanic
+  GenOps = 3
+INVARIANTS EmitInv
+VIEW GenView
 CHECK_DEADLOCK FALSE
